@@ -235,7 +235,9 @@ pub fn run(ctx: &Ctx) -> Outcome {
         let w = rng.int(6, 32) as i32;
         let h = rng.int(6, 32) as i32;
         let curves = rng.chance(0.6);
-        let path = crate::gen::random_path(&mut rng, w, h, curves);
+        // one case in three takes C08's path grammar: several subpaths, commands right after Close (which
+        // continue from that subpath's start), curves ending on their start, missing MoveTo, arcs
+        let path = if i % 3 == 0 { super::c08::gen_path(&mut rng, w, h, false) } else { crate::gen::random_path(&mut rng, w, h, curves) };
         let mut dt = DrawTarget::new(w, h);
         dt.fill(&path, &Source::Solid(WHITE), &DrawOptions::new());
         let d = dt.get_data();
